@@ -842,6 +842,40 @@ fn case_concurrent(out: &mut CaseOut, tier: &str, seed: u64, idx: u64) {
             (views, problems)
         }).unwrap());
     }
+    // every second case: a thread that keeps sinking random key ranges one level deeper (the
+    // crate's level-by-level manual compaction), so that the views outlive compactions at every depth
+    let sinker = if idx % 2 == 0 {
+        let (db, stop) = (Arc::clone(&db), Arc::clone(&stop));
+        let mut srng = Rng::new(mix(&[seed, idx], "c03-concurrent-sinker"));
+        Some(std::thread::Builder::new().name("c03-sinker".into()).spawn(move || {
+            set_role(40);
+            let mut steps = 0u64;
+            while !stop.load(Ordering::SeqCst) && steps < 400 {
+                watch::tick();
+                let files = db.verif_files();
+                let levels: Vec<usize> = (0..6).filter(|l| files.iter().any(|f| f.level == *l)).collect();
+                if levels.is_empty() {
+                    std::thread::sleep(Duration::from_millis(2));
+                    continue;
+                }
+                let level = *srng.pick(&levels);
+                let t = srng.below(writers as u64);
+                let a = format!("w{t}-{:02}", srng.below(keys_per_writer)).into_bytes();
+                let range = match srng.below(3) {
+                    0 => (None, None),
+                    1 => (Some(a), None),
+                    _ => (None, Some(a)),
+                };
+                let _g = watch::enter("force_level_compaction");
+                db.verif_force_level_compaction(level, range.0.as_deref()..range.1.as_deref());
+                steps += 1;
+                std::thread::sleep(Duration::from_micros(srng.range(100, 2000)));
+            }
+            steps
+        }).unwrap())
+    } else {
+        None
+    };
     let mut logs: Vec<Vec<WriterOp>> = vec![];
     let mut refused = None;
     for h in whandles {
@@ -854,6 +888,9 @@ fn case_concurrent(out: &mut CaseOut, tier: &str, seed: u64, idx: u64) {
         }
     }
     stop.store(true, Ordering::SeqCst);
+    if let Some(h) = sinker {
+        out.add("level_by_level_compactions_beside_live_views", h.join().unwrap_or(0));
+    }
     let mut views: Vec<ViewRec> = vec![];
     for h in rhandles {
         if let Ok((v, problems)) = h.join() {
